@@ -617,9 +617,22 @@ def run_shard(desc, seed, tier, col):
         for _ in range(n):
             T = gen.draw_type(d)
             pool.append([T, gen.draw_value(d, T)])
-        if d.pct(8):
+        r = d.int(0, 99)
+        if r < 8:
             # (a directed shape of the general generator: SET whose order depends on an alternative two CHOICE levels down)
             pool[0] = list(gen.nested_choice_set_case(d))
+        elif r < 16:
+            # a record whose absent OPTIONAL members are of types without a mandatory member (a placeholder for one of them
+            # counts as a value once it is instantiated)
+            inner = ir.mk('SEQUENCE', comps=[ir.comp('x', ir.mk('INTEGER'), 'opt'), ir.comp('y', ir.mk('BOOLEAN', tags=[['I', 'C', 1]]), 'def', True)])
+            T = ir.mk(d.pick(['SEQUENCE', 'SET']), comps=[ir.comp('a', ir.mk('INTEGER')), ir.comp('p', dict(inner, tags=[['I', 'C', 2]]), 'opt'),
+                                                          ir.comp('q', ir.mk('SEQUENCEOF', tags=[['I', 'C', 3]], of=ir.mk('INTEGER')), 'opt')])
+            pool[0] = [T, {'a': d.int(0, 300)}]
+        elif r < 24:
+            # a tagged BIT STRING of whole octets, longer than the chunk sizes of the chunking encoder call
+            n = d.pick([16, 24, 32, 40])
+            T = ir.mk('BITSTRING', tags=[[d.pick(['I', 'E']), 'C', d.int(0, 5)]])
+            pool[0] = [T, (n, d.int(0, 2 ** n - 1))]
         if d.pct(30):
             # a record that repeats a tag in two OPTIONAL runs separated by a mandatory member (legal: X.680 25.6), given two
             # values that use the first and the second occurrence
